@@ -198,6 +198,11 @@ class Signs:
                 if isinstance(lo, int) and isinstance(hi, int):
                     return inner[lo:hi]
             return OTHER
+        if isinstance(node, ast.BinOp) and isinstance(node.op, ast.Add):
+            # tuple concatenation:  (flag,) + helper(...)
+            l, r = self.kind_tuple(node.left, f, env), self.kind_tuple(node.right, f, env)
+            if isinstance(l, tuple) and isinstance(r, tuple):
+                return l + r
         if isinstance(node, ast.Call):
             s = self._call_summary(node, f, env)
             if s is not None:
